@@ -46,6 +46,7 @@ class Gen(object):
         self.model = ops.Model(dom, kind)
         self.table = MAP_W if self.mapping else SET_W
         self.phase = "mixed"
+        self.p_bad = 0.0
 
     def present(self):
         ks = self.model.skeys()
@@ -99,8 +100,42 @@ class Gen(object):
                 return name
         return table[0][0]
 
+    def bad_write(self):
+        """a write with an unusable key or value (must raise TypeError and
+        change nothing); never `insert` (see C09 findings)"""
+        rng = self.rng
+        fam = self.dom.fam
+        bk = ops.bad_key_spec(fam)
+        bv = ops.bad_value_spec(fam)
+        if self.mapping:
+            name = rng.choice(["set", "set", "setdefault", "update"])
+            if bv is not None and rng.random() < 0.6:
+                k, v = self.key_for(rng.random() < 0.3, 0), bv
+                if name == "setdefault":
+                    # with a present key the default is not looked at
+                    # (C) or rejected (Python): outside this model
+                    k = self.absent()
+                    if k is None:
+                        name = "set"
+                        k = self.anykey()
+            else:
+                k, v = bk, self.val()
+            if name == "update":
+                # (only the bad pair: a failing multi-key update may
+                # legitimately keep the pairs before it)
+                return [name, [[k, v]], "list"]
+            return [name, k, v]
+        name = rng.choice(["add", "add", "supdate"])
+        if name == "supdate":
+            return [name, [bk], "list"]
+        return [name, bk]
+
     def op(self):
         rng = self.rng
+        if self.p_bad and rng.random() < self.p_bad:
+            op = self.bad_write()
+            self.model.apply(op)
+            return op
         while True:
             name = self.pick_name()
             if name == "insert" and self.kind != "BTree":
